@@ -152,6 +152,10 @@ class GrowthDomain(FactDomain):
     def _canon(self, e):
         if isinstance(e, ast.Name) and len(self.g.assigns.get(e.id, ())) == 1:
             e = self.g.assigns[e.id][0]
+        try:
+            e = self.g.il.expand(e)             # temporaries of the value (a named edge length, a named candidate) read in place
+        except Exception:  # noqa
+            pass
         return src(e).replace(' ', '').replace('(', '').replace(')', '')
 
     def _improvement(self, stmt, value, facts):
@@ -206,7 +210,9 @@ class GrowthDomain(FactDomain):
             if recv == g.new:
                 self._rec(('R16.5', 'setParent before insertion ' + src(call)), places == 0, call.lineno,
                           'setParent after the node was placed in the tree')
-                free = any(self.has(facts, False, '%s(%s, %s)' % (g.coll, a, b)) for x_ in (X, X_raw) for a, b in ((g.new, x_), (x_, g.new)))
+                # the candidate may be named by any local that holds the same node (a single-definition local with the same expansion)
+                same = [n_ for n_, vs_ in g.assigns.items() if len(vs_) == 1 and n_ not in (X_raw,) and src(g.il.expand(ast.Name(id=n_, ctx=ast.Load()))) == X]
+                free = any(self.has(facts, False, '%s(%s, %s)' % (g.coll, a, b)) for x_ in [X, X_raw] + same for a, b in ((g.new, x_), (x_, g.new)))
                 self._rec(('R16.3', src(call)), free, call.lineno,
                           'parent link to %s is not dominated by a negative collision test %s(%s, %s)' % (X, g.coll, g.new, X))
                 if not first:
@@ -584,7 +590,8 @@ class Checker:
             ok = len(rets) == 1 and src(rets[0].value) == 'self.' + field
             rep.ob('R16.6', fi, 'returns self.' + field, ok, '%s does not return the stored %s' % (meth, field))
         sp = self._m(self.node, 'setParent')
-        ok = any(isinstance(n, ast.Assign) and src(n.targets[0]) == 'self.parent' and src(n.value) == sp.params[1] for n in walk_own(sp.node))
+        il_sp = Inliner(sp)
+        ok = any(isinstance(n, ast.Assign) and src(n.targets[0]) == 'self.parent' and src(il_sp.expand(n.value)) == sp.params[1] for n in walk_own(sp.node))
         rep.ob('R16.6', sp, 'self.parent = <argument>', ok, 'setParent does not store its argument as the parent')
         # setParent only links: the cost the growth loop stored for the node (with the planner's distance) is not recomputed behind its back
         def stores_of(meth, seen):
